@@ -329,7 +329,14 @@ func grpcStatusExtra(t *tr) string {
 	for _, h := range hits {
 		hq = append(hq, fmt.Sprintf("%q", h))
 	}
-	b.WriteString("/-- every non-test source position that assigns a field or composite-literal key named `Connect`\n(the optional `BaseGun.Connect` hook; the C10 model assumes it is never set) -/\ndef connectHookAssignments : List String := [" + strings.Join(hq, ", ") + "]\n")
+	b.WriteString("/-- every non-test source position that assigns a field or composite-literal key named `Connect`\n(the optional `BaseGun.Connect` hook; the C10 model assumes it is never set) -/\ndef connectHookAssignments : List String := [" + strings.Join(hq, ", ") + "]\n\n")
+
+	// ---- 5. the documented table (docs/eng/grpc-generator.md)
+	gsDocTable(t, &b)
+	// ---- 6. the id counter
+	gsIDCounter(t, &b)
+	// ---- 7. sample-relevant slices of the guns' shoot functions
+	gsSlices(t, &b)
 	return b.String()
 }
 
